@@ -184,10 +184,12 @@ func Copy(src, dst string) error {
 		return err
 	}
 	defer fpDst.Close()
+	verifhook.Point("fileutil.copy.created", dst)
 	_, err = io.Copy(fpDst, fpSrc)
 	if err != nil {
 		return err
 	}
+	verifhook.Point("fileutil.copy.written", dst)
 	return nil
 }
 
@@ -216,6 +218,7 @@ func Move(src, dst string) error {
 	if err = os.Rename(dst+LockExt, dst); err != nil {
 		return err
 	}
+	verifhook.Point("fileutil.d.move.renamed", dst)
 	verifhook.Point("fileutil.d.move.done", dst)
 	return nil
 }
